@@ -175,6 +175,9 @@ def py_len(I, x: Any, st: State) -> Iterator[tuple[State, Any]]:
         raise OutsideSubset(f"len of {type(x).__name__}")
 
 
+_FLOAT_ROUND = z3.Function("float_round_of_int", z3.IntSort(), z3.RealSort())
+
+
 def py_float(I, x: Any, st: State) -> Iterator[tuple[State, Any]]:
     """float(x): Val in -> Val (VFloat) out; str may raise ValueError; None/objects raise TypeError."""
     if isinstance(x, (int, float)) and not isinstance(x, bool):
@@ -185,8 +188,25 @@ def py_float(I, x: Any, st: State) -> Iterator[tuple[State, Any]]:
         v = V.VStr(x)
     for s2, b in I.branch(st, V.is_numeric(v)):
         if b:
-            rv, k = V.num_parts(v)
-            yield s2, V.VFloat(rv, k)
+            # float(int) is NOT the identity on mathematical integers: exact up to 2**53, ROUNDED beyond (an uninterpreted
+            # function of the integer: nothing may be concluded from the rounded value), OverflowError from 2**1024 on.
+            # (Before round 6 it was modelled as exact, which hid RANGE's float(value) on big integers.)
+            for s3, is_int in I.branch(s2, V.is_VInt(v)):
+                if not is_int:
+                    rv, k = V.num_parts(v)
+                    yield s3, V.VFloat(rv, k)
+                    continue
+                i = V.Val.i(v)
+                mag = z3.If(i >= 0, i, -i)
+                for s4, small in I.branch(s3, mag <= 2**53):
+                    if small:
+                        yield s4, V.VFloat(z3.ToReal(i), z3.IntVal(0))
+                        continue
+                    for s5, huge in I.branch(s4, mag >= 2**1024):
+                        if huge:
+                            yield s5, Raised(SExc("OverflowError", note="float() of an integer beyond the float range"))
+                        else:
+                            yield s5, V.VFloat(_FLOAT_ROUND(i), z3.IntVal(0))
         else:
             for s3, b2 in I.branch(s2, V.is_VStr(v)):
                 if b2:
